@@ -409,6 +409,11 @@ func mysqlReplay(r *ev.Run, ks *filesystem.KeyStore) bool {
 		}
 	case "mysql-pumps":
 		mysqlPumpPhase(r, ks, r.Thorough())
+	case "pg-pumps":
+		pgPumpPhase(r, ks, r.Thorough())
+	case "pg-pumps-dev": // developer shortcut: the PostgreSQL pump phase alone
+		r.Replay = ""
+		pgPumpPhase(r, ks, r.Thorough())
 	case "mysql-pumps-dev": // developer shortcut: the pump phase alone
 		r.Replay = ""
 		mysqlPumpPhase(r, ks, r.Thorough())
